@@ -196,7 +196,7 @@ fn hll_composite_multisets(ctx: &Ctx) -> u64 {
 /// estimator (start of the interpolation table, every table knot, the end of the table and
 /// the extrapolation beyond it). The estimate must increase with j and no single step may
 /// be out of proportion to the step of the raw sum.
-fn hll_composite_continuity(ctx: &Ctx) -> u64 {
+pub fn hll_composite_continuity(ctx: &Ctx) -> u64 {
     let lgs: Vec<u8> = ctx.tier.pick(vec![8, 10, 12], vec![7, 8, 9, 10, 11, 12, 13, 14, 16]);
     let jobs: Vec<(u8, u8)> = lgs.iter().flat_map(|&l| (1u8..=7).map(move |v| (l, v))).collect();
     let worst = std::sync::Mutex::new(0.0f64);
@@ -667,9 +667,14 @@ fn theta_deserialized(ctx: &Ctx, p: &crate::thetam::Pair, mk: &dyn Fn() -> serde
     let o = |c: &CompactThetaSketch| [c.estimate(), c.lower_bound(One), c.lower_bound(Two), c.lower_bound(Three), c.upper_bound(One), c.upper_bound(Two), c.upper_bound(Three)].map(f64::to_bits);
     let r = catch(|| {
         let mut bad = vec![];
+        let live = [p.s.estimate(), p.s.lower_bound(One), p.s.lower_bound(Two), p.s.lower_bound(Three), p.s.upper_bound(One), p.s.upper_bound(Two), p.s.upper_bound(Three)].map(f64::to_bits);
         for ordered in [true, false] {
             let c = p.s.compact(ordered);
             let want = o(&c);
+            // the compact form answers exactly as the sketch it was taken from
+            if want != live {
+                bad.push(format!("compact(ordered={ordered}): estimate {} / ub3 {} but the update sketch says {} / {}", c.estimate(), c.upper_bound(Three), p.s.estimate(), p.s.upper_bound(Three)));
+            }
             for (form, img) in [("serialize", c.serialize()), ("serialize_compressed", c.serialize_compressed())] {
                 match CompactThetaSketch::deserialize_with_seed(&img, p.cfg.seed) {
                     Ok(d) => {
